@@ -23,12 +23,25 @@ CONSTANTS V,        \* vocabulary size
           MaxLen,   \* maximal document length
           MaxDocs,  \* maximal number of documents
           Cfgs,     \* sequence of configurations to pair with every corpus
+          Prunes,   \* sequence of [excluded : set of tokens, mask : BOOLEAN] vocabulary settings (C14);
+                    \* <<[excluded |-> {}, mask |-> FALSE]>> leaves the corpus as it is
           TIMED,    \* BOOLEAN: timed variant
           Gaps,     \* allowed time gaps between consecutive tokens ({1} when not TIMED)
           EMIT      \* print every finished instance with its expected cells
 Tok == 0..V
-VARIABLES corpus, times, ci, done
-vars == <<corpus, times, ci, done>>
+VARIABLES corpus, times, ci, pi, done
+vars == <<corpus, times, ci, pi, done>>
+
+\* ---------------------------------------------------------------- vocabulary pruning: delete or mask (C14)
+\* tokens removed from the vocabulary are deleted (their neighbours become adjacent) or, with a mask string,
+\* replaced in place by the mask token V (lengths, distances and time stamps preserved)
+KeptTok(pr) == (0..(V - 1)) \ pr.excluded
+KeptPos(doc, pr) == SelectSeq([p \in DOMAIN doc |-> p], LAMBDA p : doc[p] \in KeptTok(pr))
+EffDoc(doc, pr) == IF pr.mask THEN [p \in DOMAIN doc |-> IF doc[p] \in KeptTok(pr) THEN doc[p] ELSE V]
+                   ELSE [k \in DOMAIN KeptPos(doc, pr) |-> doc[KeptPos(doc, pr)[k]]]
+EffTimes(doc, tms, pr) == IF pr.mask THEN tms ELSE [k \in DOMAIN KeptPos(doc, pr) |-> tms[KeptPos(doc, pr)[k]]]
+Eff(c, pr) == [d \in DOMAIN c |-> EffDoc(c[d], pr)]
+EffT(c, ts, pr) == [d \in DOMAIN c |-> EffTimes(c[d], ts[d], pr)]
 
 \* context positions of window w around position p of doc, nearest first; never outside doc
 Ctx(doc, p, w) == LET r == w.radius[doc[p] + 1] IN
@@ -56,40 +69,57 @@ DeclCell(cfg, c, ts, i, a, b) ==
      IF c[d][p] # a THEN 0
      ELSE LET cx == Ctx(c[d], p, w)
           IN SumSeq([j \in DOMAIN cx |-> IF c[d][cx[j]] = b THEN w.mix * KNum(cfg, w, c[d], ts[d], p, j, cx[j]) ELSE 0])])])
+EC == Eff(corpus, Prunes[pi])
+ET == EffT(corpus, times, Prunes[pi])
 Refines == done /\ Plain(Cfgs[ci]) =>
-   LET cfg == Cfgs[ci]  cs == Cells(cfg, corpus, times) IN
+   LET cfg == Cfgs[ci]  cs == Cells(cfg, EC, ET) IN
    \A i \in DOMAIN IWins(cfg), a \in Tok, b \in Tok :
-       DeclCell(cfg, corpus, times, i, a, b) = CellInt(cs, <<i, a, b>>, KDen(cfg))
+       DeclCell(cfg, EC, ET, i, a, b) = CellInt(cs, <<i, a, b>>, KDen(cfg))
 \* with constant radii and no normalisation / offset the 'before' block of a directional window is
 \* the transpose of its 'after' block
 BeforeIsTransposeOfAfter == done /\ Plain(Cfgs[ci]) /\ ~Cfgs[ci].nullify =>
    LET cfg == Cfgs[ci]  ws == IWins(cfg) IN
    \A i, k \in DOMAIN ws :
       (ws[i].u = ws[k].u /\ ws[i].orient = "before" /\ ws[k].orient = "after" /\ ConstRadius(ws[i])) =>
-         \A a, b \in Tok : DeclCell(cfg, corpus, times, i, a, b) = DeclCell(cfg, corpus, times, k, b, a)
+         \A a, b \in Tok : DeclCell(cfg, EC, ET, i, a, b) = DeclCell(cfg, EC, ET, k, b, a)
 \* every window total is a probability vector when window normalisation is on
 WindowMassOne == done /\ Cfgs[ci].wnorm =>
-   \A d \in DOMAIN corpus : \A p \in DOMAIN corpus[d] : MassOne(EventsAt(Cfgs[ci], corpus[d], times[d], p))
+   \A d \in DOMAIN EC : \A p \in DOMAIN EC[d] : MassOne(EventsAt(Cfgs[ci], EC[d], ET[d], p))
 \* the timed weights depend on time differences only
 Shift(ts, s) == [d \in DOMAIN ts |-> [p \in DOMAIN ts[d] |-> ts[d][p] + s]]
-ShiftInvariant == done /\ TIMED => Events(Cfgs[ci], corpus, Shift(times, 1000)) = Events(Cfgs[ci], corpus, times)
+ShiftInvariant == done /\ TIMED => Events(Cfgs[ci], EC, Shift(ET, 1000)) = Events(Cfgs[ci], EC, ET)
+\* C14: masking keeps every position, deleting keeps exactly the kept tokens
+MaskKeepsPositions == done => \A d \in DOMAIN corpus :
+   IF Prunes[pi].mask THEN Len(EC[d]) = Len(corpus[d]) /\ \A p \in DOMAIN corpus[d] : (EC[d][p] = V) = (corpus[d][p] \in Prunes[pi].excluded)
+   ELSE Len(EC[d]) = Cardinality({p \in DOMAIN corpus[d] : corpus[d][p] \notin Prunes[pi].excluded}) /\ \A p \in DOMAIN EC[d] : EC[d][p] # V
+\* C14: with nullify_mask the mask's row and every column referring to it are zero, and (without normalisation) every other
+\* cell equals the cell of the masked computation: only the mask's own contributions are removed
+NullifyRemovesOnlyTheMask == done /\ Cfgs[ci].nullify =>
+   LET cfg == Cfgs[ci]  plain == [cfg EXCEPT !.nullify = FALSE,
+                                             !.wins = [i \in DOMAIN cfg.wins |-> [cfg.wins[i] EXCEPT !.radius = [t \in DOMAIN @ |-> @[1]]]]]
+       cs == Cells(cfg, EC, ET) IN
+   /\ \A k \in DOMAIN cs : k[2] # V /\ k[3] # V
+   /\ (Plain(cfg) /\ (\A i \in DOMAIN cfg.wins : \A t \in 1..V : cfg.wins[i].radius[t] = cfg.wins[i].radius[1]) =>
+          \A i \in DOMAIN IWins(cfg), a \in 0..(V - 1), b \in 0..(V - 1) :
+             DeclCell(cfg, EC, ET, i, a, b) = DeclCell(plain, EC, ET, i, a, b))
 
 \* ---------------------------------------------------------------- instance generation
-Init == corpus = << <<>> >> /\ times = << <<>> >> /\ ci \in DOMAIN Cfgs /\ done = FALSE
+Init == corpus = << <<>> >> /\ times = << <<>> >> /\ ci \in DOMAIN Cfgs /\ pi \in DOMAIN Prunes /\ done = FALSE
 LastTime(ts) == IF ts = <<>> THEN 0 ELSE ts[Len(ts)]
 AddTok(t, g) == /\ ~done /\ Len(corpus[Len(corpus)]) < MaxLen
                 /\ corpus' = [corpus EXCEPT ![Len(corpus)] = Append(@, t)]
                 /\ times' = [times EXCEPT ![Len(times)] = Append(@, LastTime(@) + g)]
-                /\ UNCHANGED <<ci, done>>
+                /\ UNCHANGED <<ci, pi, done>>
 NewDoc == /\ ~done /\ Len(corpus) < MaxDocs
-          /\ corpus' = Append(corpus, <<>>) /\ times' = Append(times, <<>>) /\ UNCHANGED <<ci, done>>
+          /\ corpus' = Append(corpus, <<>>) /\ times' = Append(times, <<>>) /\ UNCHANGED <<ci, pi, done>>
 NonEmpty(c) == \E d \in DOMAIN c : c[d] # <<>>
-Finish == /\ ~done /\ NonEmpty(corpus) /\ done' = TRUE /\ UNCHANGED <<corpus, times, ci>>
+\* named precondition: some kept token remains (otherwise the implementation raises 'Token dictionary is empty')
+Finish == /\ ~done /\ NonEmpty(Eff(corpus, [Prunes[pi] EXCEPT !.mask = FALSE])) /\ done' = TRUE /\ UNCHANGED <<corpus, times, ci, pi>>
 Next == (\E t \in 0..(V - 1), g \in Gaps : AddTok(t, g)) \/ NewDoc \/ Finish
 Spec == Init /\ [][Next]_vars
 
 EmitInv == IF EMIT /\ done
-           THEN PrintT(ToJson([corpus |-> corpus, times |-> times, ci |-> ci,
-                               cells |-> CellsJson(Cfgs[ci], Cells(Cfgs[ci], corpus, times))]))
+           THEN PrintT(ToJson([corpus |-> corpus, times |-> times, ci |-> ci, pi |-> pi,
+                               cells |-> CellsJson(Cfgs[ci], Cells(Cfgs[ci], EC, ET))]))
            ELSE TRUE
 ====
